@@ -59,4 +59,13 @@ def ClustersReleased (s : St) : Prop := s.alive = false ∧ s.clusters = []
     `ctorBeforeRegister` faults are never raised since the upstream repairs) -/
 def NoFault (s : St) : Prop := s.faults = []
 
+/-- no cluster boundary reference into a freed obstacle was ever read (`ReferencingPolygon::at` on the
+    polygon of a deleted shape, geomtypes.cpp:199) -/
+def NoDanglingClusterRef (s : St) : Prop := s.refFaults = []
+
+/-- while the router lives, every obstacle a cluster boundary references is allocated and has no removal queued -/
+def ClusterRefsValid (s : St) : Prop :=
+  s.alive = true → ∀ k ∈ s.clusters, ∀ r ∈ k.refs,
+    s.hasObst r = true ∧ s.hasAction .shapeRemove r = false ∧ s.hasAction .junctionRemove r = false
+
 end AdaptaVerif.Spec.Lifecycle
